@@ -187,7 +187,7 @@ def auto_structural(ctx, comp):
                 if meas[target[0]] >= len(ats):
                     ok = False
                     break
-                d = descent_depth(norms[m], ats[meas[target[0]]], meas[m])
+                d = descent_depth(norms[m], ats[meas[target[0]]], meas[m], (_CLO_SRC.get(id(ats)) or (None, None))[1])
                 if d is None or d < 1:
                     ok = False
                     break
@@ -231,11 +231,33 @@ def _calls_into(ctx, fn, comp, N=None, apply_closures=True):
                 t = N.term(n)
                 short = {cshort(m): m for m in names}
                 seen = set()
-                for st in subterms(t):
-                    if st[0] == "call" and st[1] in short and show(st) not in seen:
-                        seen.add(show(st))
-                        out.append((n, short[st[1]], list(st[2]), False))
+
+                def visit(x, clo):
+                    # the closures that enclose a call inside the inlined helper(s), with what each of them iterates (read off the term itself:
+                    # the helper's closures are not closures of fn)
+                    if x[0] == "call" and x[1] in short and show(x) not in seen:
+                        seen.add(show(x))
+                        args_ = list(x[2])
+                        _CLO_SRC[id(args_)] = (args_, dict(clo))
+                        out.append((n, short[x[1]], args_, False))
+                    if x[0] == "call" and len(x[2]) == 2 and x[2][1][0] == "closure":
+                        visit(x[2][0], clo)
+                        inner = dict(clo)
+                        inner[x[2][1][1]] = x[2][0]
+                        visit(x[2][1][3], inner)
+                        return
+                    for c_ in _direct_subterms(x):
+                        visit(c_, clo)
+                visit(t, {})
     return out
+
+
+_CLO_SRC = {}
+
+
+def _direct_subterms(x):
+    from .core.norm import _direct_children
+    return _direct_children(x)
 
 
 def _literal_items(t):
@@ -257,7 +279,7 @@ def _literal_items(t):
     return None
 
 
-def descent_depth(N, t, root):
+def descent_depth(N, t, root, clo=None):
     """number of strict projection steps from parameter `root` to term t, or None if t is not rooted there"""
     steps = 0
     while True:
@@ -266,7 +288,7 @@ def descent_depth(N, t, root):
             return steps if t[1] == root else None
         if k == "elem" and _literal_items(t[1]) is not None:
             # an element of a container written out in place (`vec![a, b]`, or a choice between such): one of its items, no step
-            ds = [descent_depth(N, a, root) for a in _literal_items(t[1])]
+            ds = [descent_depth(N, a, root, clo) for a in _literal_items(t[1])]
             if any(d is None for d in ds):
                 return None
             return steps + (min(ds) if ds else 99)         # an empty container has no element to descend into
@@ -278,6 +300,9 @@ def descent_depth(N, t, root):
             t = t[1]
         elif k == "try":
             t = t[1]
+        elif k == "cparam" and clo is not None and t[1] in clo:
+            r = descent_depth(N, clo[t[1]], root, clo)
+            return None if r is None else r + steps + 1
         elif k == "cparam":
             # closure parameter: element of what the adaptor iterates
             src = None
@@ -325,7 +350,7 @@ def structural(ctx, rid, key, comp, spec):
                 bad.append("no measure parameter for callee " + ccs)
                 continue
             at = ats[ci]
-            d = descent_depth(N, at, mi)
+            d = descent_depth(N, at, mi, (_CLO_SRC.get(id(ats)) or (None, None))[1])
             if d is None:
                 bad.append("%s calls %s with `%s`, which is not a projection of its own parameter P%d" % (cs, ccs, show(at)[:100], mi))
             elif d == 0 and cs not in tramp and ccs not in tramp:
